@@ -1,6 +1,565 @@
-//! Monitor for C33 (see /verif/DESIGN.md §5 C33).
-use vcommon::Args;
+//! Monitor for C33 — "Referral relationships are write-once and never self-referential".
+//!
+//! Workload: 6 users and a pool of 7 referral codes (plus the all-zero code) in one store; random
+//! sequences of `prepare_user`, `initialize_referral_code`, `set_referrer`, `transfer_referral_code`,
+//! `cancel_referral_code_transfer`, `accept_referral_code` through the real instructions in hostsvm,
+//! in well-formed and hostile variants (self referral, referrer account not matching the code,
+//! non-owner transfers / cancels, acceptance by someone who is not the proposed owner, acceptance
+//! signed by the old owner, re-initialisation of an existing code).
+//!
+//! Oracle: a reference relation (referrer map, code -> owner / proposed owner, user -> code) and, after
+//! every successful instruction, the user / referral-code accounts read back from the chain.
+use crate::world::{
+    user::{
+        accept_referral_code_ix, cancel_referral_code_transfer_ix, initialize_referral_code_ix, prepare_user_ix, read_code, read_user,
+        referral_code_address, set_referrer_ix, transfer_referral_code_ix, user_address, CodeView, UserView,
+    },
+    World,
+};
+use anchor_lang::prelude::Pubkey;
+use hostsvm::TxError;
+use std::collections::{BTreeMap, BTreeSet, VecDeque};
+use vcommon::{json, monitor::run_shards, Args, Monitor, Rng};
 
-pub fn run(_args: &Args) -> Option<i32> {
-    None
+const N_USERS: usize = 6;
+const N_CODES: usize = 7;
+
+#[derive(Clone, Default, PartialEq, Eq, Debug)]
+struct Rel {
+    prepared: BTreeSet<usize>,
+    referrer: BTreeMap<usize, usize>,
+    code_owner: BTreeMap<usize, usize>,
+    code_next: BTreeMap<usize, usize>,
+    user_code: BTreeMap<usize, usize>,
+}
+
+#[derive(Clone, Copy, PartialEq, Eq, Debug)]
+enum Exp {
+    Ok,
+    /// The property itself requires a failure.
+    MustFail(&'static str),
+    /// Malformed / documented-to-fail request (not a property matter).
+    ShouldFail(&'static str),
+}
+
+#[derive(Clone, Debug)]
+enum Op {
+    Prepare { u: usize },
+    InitCode { u: usize, c: usize },
+    /// `ru`: whose user account is passed as `referrer_user`.
+    SetReferrer { u: usize, c: usize, ru: usize, variant: &'static str },
+    /// `signer` signs; `acct`: whose user account is passed as `user`.
+    Transfer { signer: usize, acct: usize, c: usize, r: usize, variant: &'static str },
+    Cancel { signer: usize, acct: usize, c: usize, variant: &'static str },
+    /// `signer` signs as `next_owner`; `acct`: `user` account; `recv`: `receiver_user` account.
+    Accept { signer: usize, acct: usize, recv: usize, c: usize, variant: &'static str },
+}
+
+impl Op {
+    fn name(&self) -> &'static str {
+        match self {
+            Op::Prepare { .. } => "prepare_user",
+            Op::InitCode { .. } => "initialize_referral_code",
+            Op::SetReferrer { .. } => "set_referrer",
+            Op::Transfer { .. } => "transfer_referral_code",
+            Op::Cancel { .. } => "cancel_referral_code_transfer",
+            Op::Accept { .. } => "accept_referral_code",
+        }
+    }
+    fn variant(&self) -> &'static str {
+        match self {
+            Op::Prepare { .. } | Op::InitCode { .. } => "plain",
+            Op::SetReferrer { variant, .. } | Op::Transfer { variant, .. } | Op::Cancel { variant, .. } | Op::Accept { variant, .. } => variant,
+        }
+    }
+}
+
+/// Index `N_CODES` is the all-zero (invalid) code.
+fn code_bytes(c: usize) -> [u8; 8] {
+    if c >= N_CODES {
+        return [0; 8];
+    }
+    let mut b = [0u8; 8];
+    b[0] = 0xC0 + c as u8;
+    b[7] = 1 + c as u8;
+    if c % 2 == 1 {
+        b[3] = 0; // interior zero bytes are legal code bytes
+        b[4] = 0xff;
+    }
+    b
+}
+
+impl Rel {
+    fn expect(&self, op: &Op) -> Exp {
+        match *op {
+            Op::Prepare { .. } => Exp::Ok,
+            Op::InitCode { u, c } => {
+                if self.code_owner.contains_key(&c) {
+                    Exp::MustFail("the code already belongs to a user")
+                } else if c >= N_CODES {
+                    Exp::ShouldFail("all-zero code")
+                } else if !self.prepared.contains(&u) {
+                    Exp::ShouldFail("user account not initialised")
+                } else if self.user_code.contains_key(&u) {
+                    Exp::ShouldFail("user already has a code")
+                } else {
+                    Exp::Ok
+                }
+            }
+            Op::SetReferrer { u, c, ru, .. } => {
+                if self.referrer.contains_key(&u) {
+                    Exp::MustFail("referrer already set")
+                } else if ru == u {
+                    Exp::MustFail("self referral")
+                } else if self.referrer.get(&ru) == Some(&u) {
+                    Exp::MustFail("mutual referral")
+                } else if !self.prepared.contains(&u) || !self.prepared.contains(&ru) {
+                    Exp::ShouldFail("user account not initialised")
+                } else if self.code_owner.get(&c) != Some(&ru) {
+                    Exp::ShouldFail("referrer account does not own the code")
+                } else {
+                    Exp::Ok
+                }
+            }
+            Op::Transfer { signer, acct, c, r, .. } => {
+                let owner = self.code_owner.get(&c).copied();
+                if owner.is_none() {
+                    Exp::ShouldFail("code does not exist")
+                } else if owner != Some(signer) || acct != signer {
+                    Exp::ShouldFail("not signed by the code owner")
+                } else if r == signer {
+                    Exp::ShouldFail("receiver is the owner")
+                } else if !self.prepared.contains(&r) {
+                    Exp::ShouldFail("receiver not initialised")
+                } else if self.user_code.contains_key(&r) {
+                    Exp::ShouldFail("receiver already has a code")
+                } else if self.code_next.get(&c) == Some(&r) {
+                    Exp::ShouldFail("already proposed to this receiver")
+                } else {
+                    Exp::Ok
+                }
+            }
+            Op::Cancel { signer, acct, c, .. } => {
+                let owner = self.code_owner.get(&c).copied();
+                if owner.is_none() {
+                    Exp::ShouldFail("code does not exist")
+                } else if owner != Some(signer) || acct != signer {
+                    Exp::ShouldFail("not signed by the code owner")
+                } else if self.code_next.get(&c) == Some(&signer) {
+                    Exp::ShouldFail("no transfer pending")
+                } else {
+                    Exp::Ok
+                }
+            }
+            Op::Accept { signer, acct, recv, c, .. } => {
+                let Some(owner) = self.code_owner.get(&c).copied() else {
+                    return Exp::ShouldFail("code does not exist");
+                };
+                let next = self.code_next.get(&c).copied().unwrap_or(owner);
+                if next == owner {
+                    // No proposal at all: nothing to accept (an ownership change would still be caught
+                    // by the post-state check).
+                    Exp::ShouldFail("no transfer pending")
+                } else if signer != next {
+                    Exp::MustFail("the signer is not the proposed new owner")
+                } else if recv != signer {
+                    Exp::MustFail("the receiving account is not the proposed new owner's")
+                } else if acct != owner {
+                    Exp::ShouldFail("user account is not the current owner's")
+                } else if !self.prepared.contains(&signer) {
+                    Exp::ShouldFail("receiver not initialised")
+                } else if self.user_code.contains_key(&signer) {
+                    Exp::ShouldFail("receiver already has a code")
+                } else {
+                    Exp::Ok
+                }
+            }
+        }
+    }
+
+    fn apply(&mut self, op: &Op) {
+        match *op {
+            Op::Prepare { u } => {
+                self.prepared.insert(u);
+            }
+            Op::InitCode { u, c } => {
+                self.code_owner.insert(c, u);
+                self.code_next.insert(c, u);
+                self.user_code.insert(u, c);
+            }
+            Op::SetReferrer { u, ru, .. } => {
+                self.referrer.insert(u, ru);
+            }
+            Op::Transfer { c, r, .. } => {
+                self.code_next.insert(c, r);
+            }
+            Op::Cancel { signer, c, .. } => {
+                self.code_next.insert(c, signer);
+            }
+            Op::Accept { signer, c, .. } => {
+                if let Some(old) = self.code_owner.insert(c, signer) {
+                    self.user_code.remove(&old);
+                }
+                self.user_code.insert(signer, c);
+                self.code_next.insert(c, signer);
+            }
+        }
+    }
+}
+
+struct Chain {
+    users: Vec<Option<UserView>>,
+    codes: Vec<Option<CodeView>>,
+}
+
+fn read_chain(w: &World, users: &[Pubkey]) -> Chain {
+    Chain {
+        users: users.iter().map(|u| read_user(&w.svm, &w.store, u)).collect(),
+        codes: (0..=N_CODES).map(|c| read_code(&w.svm, &w.store, code_bytes(c))).collect(),
+    }
+}
+
+/// The relation as the chain shows it (None if an account refers to something outside the universe).
+fn rel_of_chain(ch: &Chain, users: &[Pubkey], store: &Pubkey) -> Result<Rel, String> {
+    let idx = |k: &Pubkey| users.iter().position(|u| u == k);
+    let mut r = Rel::default();
+    for (i, u) in ch.users.iter().enumerate() {
+        let Some(u) = u else { continue };
+        if u.owner != users[i] || u.store != *store {
+            return Err(format!("user account {i} carries owner/store {} / {}", u.owner, u.store));
+        }
+        r.prepared.insert(i);
+        if let Some(x) = u.referrer {
+            r.referrer.insert(i, idx(&x).ok_or(format!("user {i} has an unknown referrer {x}"))?);
+        }
+        if let Some(caddr) = u.code {
+            let c = (0..=N_CODES)
+                .find(|c| referral_code_address(store, code_bytes(*c)) == caddr)
+                .ok_or(format!("user {i} points to an unknown code account {caddr}"))?;
+            r.user_code.insert(i, c);
+        }
+    }
+    for (c, cv) in ch.codes.iter().enumerate() {
+        let Some(cv) = cv else { continue };
+        r.code_owner.insert(c, idx(&cv.owner).ok_or(format!("code {c} has an unknown owner {}", cv.owner))?);
+        r.code_next.insert(c, idx(&cv.next_owner).ok_or(format!("code {c} has an unknown next owner {}", cv.next_owner))?);
+    }
+    Ok(r)
+}
+
+fn err_code(e: &TxError) -> String {
+    match e.custom_code() {
+        Some(c) => format!("Custom({c})"),
+        None => {
+            let s = format!("{e:?}");
+            s.chars().take(48).collect()
+        }
+    }
+}
+
+fn build(w: &World, users: &[Pubkey], op: &Op) -> (anchor_lang::solana_program::instruction::Instruction, Pubkey) {
+    let store = w.store;
+    let ua = |i: usize| user_address(&store, &users[i]);
+    match *op {
+        Op::Prepare { u } => (prepare_user_ix(store, users[u]), users[u]),
+        Op::InitCode { u, c } => (initialize_referral_code_ix(store, users[u], ua(u), code_bytes(c)), users[u]),
+        Op::SetReferrer { u, c, ru, .. } => (
+            set_referrer_ix(store, users[u], ua(u), code_bytes(c), referral_code_address(&store, code_bytes(c)), ua(ru)),
+            users[u],
+        ),
+        Op::Transfer { signer, acct, c, r, .. } => {
+            (transfer_referral_code_ix(store, users[signer], ua(acct), referral_code_address(&store, code_bytes(c)), ua(r)), users[signer])
+        }
+        Op::Cancel { signer, acct, c, .. } => {
+            (cancel_referral_code_transfer_ix(store, users[signer], ua(acct), referral_code_address(&store, code_bytes(c))), users[signer])
+        }
+        Op::Accept { signer, acct, recv, c, .. } => {
+            (accept_referral_code_ix(store, users[signer], ua(acct), referral_code_address(&store, code_bytes(c)), ua(recv)), users[signer])
+        }
+    }
+}
+
+fn gen_op(rng: &mut Rng, rel: &Rel) -> Op {
+    let u = rng.below(N_USERS as u64) as usize;
+    let any_user = |rng: &mut Rng| rng.below(N_USERS as u64) as usize;
+    let existing_codes: Vec<usize> = rel.code_owner.keys().copied().collect();
+    let pick_code = |rng: &mut Rng| -> usize {
+        if !existing_codes.is_empty() && rng.chance(4, 5) {
+            *rng.pick(&existing_codes)
+        } else {
+            rng.below(N_CODES as u64 + 1) as usize
+        }
+    };
+    match rng.weighted(&[6, 12, 30, 18, 8, 26]) {
+        0 => Op::Prepare { u },
+        1 => {
+            // Mostly a fresh code for a user without one; sometimes an existing code / the zero code.
+            let c = if rng.chance(1, 4) { pick_code(rng) } else { rng.below(N_CODES as u64 + 1) as usize };
+            Op::InitCode { u, c }
+        }
+        2 => {
+            let c = pick_code(rng);
+            let owner = rel.code_owner.get(&c).copied();
+            match rng.below(10) {
+                0 => {
+                    // self referral through the user's own code
+                    let c = rel.user_code.get(&u).copied().unwrap_or(c);
+                    Op::SetReferrer { u, c, ru: u, variant: "self" }
+                }
+                1 => Op::SetReferrer { u, c, ru: any_user(rng), variant: "referrer_account_arbitrary" },
+                2 | 3 => {
+                    // try to close a 2-cycle: pick a user referred by u, use u' code
+                    let referred: Vec<usize> = rel.referrer.iter().filter(|(_, r)| **r == u).map(|(x, _)| *x).collect();
+                    if let Some(v) = referred.first().copied() {
+                        let c = rel.user_code.get(&v).copied().unwrap_or(c);
+                        Op::SetReferrer { u, c, ru: v, variant: "mutual_attempt" }
+                    } else {
+                        Op::SetReferrer { u, c, ru: owner.unwrap_or(u), variant: "well_formed" }
+                    }
+                }
+                _ => Op::SetReferrer { u, c, ru: owner.unwrap_or_else(|| any_user(rng)), variant: "well_formed" },
+            }
+        }
+        3 => {
+            let c = pick_code(rng);
+            let owner = rel.code_owner.get(&c).copied().unwrap_or(u);
+            let r = any_user(rng);
+            match rng.below(8) {
+                0 => Op::Transfer { signer: u, acct: u, c, r, variant: "signed_by_arbitrary_user" },
+                1 => Op::Transfer { signer: u, acct: owner, c, r, variant: "owner_account_foreign_signer" },
+                _ => Op::Transfer { signer: owner, acct: owner, c, r, variant: "well_formed" },
+            }
+        }
+        4 => {
+            let c = pick_code(rng);
+            let owner = rel.code_owner.get(&c).copied().unwrap_or(u);
+            match rng.below(6) {
+                0 => Op::Cancel { signer: u, acct: u, c, variant: "signed_by_arbitrary_user" },
+                1 => Op::Cancel { signer: u, acct: owner, c, variant: "owner_account_foreign_signer" },
+                _ => Op::Cancel { signer: owner, acct: owner, c, variant: "well_formed" },
+            }
+        }
+        _ => {
+            // Prefer codes with a pending transfer.
+            let pending: Vec<usize> = rel.code_owner.iter().filter(|(c, o)| rel.code_next.get(*c) != Some(*o)).map(|(c, _)| *c).collect();
+            let c = if !pending.is_empty() && rng.chance(4, 5) { *rng.pick(&pending) } else { pick_code(rng) };
+            let owner = rel.code_owner.get(&c).copied().unwrap_or(u);
+            let next = rel.code_next.get(&c).copied().unwrap_or(owner);
+            match rng.below(10) {
+                0 | 1 => Op::Accept { signer: u, acct: owner, recv: u, c, variant: "signed_by_arbitrary_user" },
+                2 => Op::Accept { signer: owner, acct: owner, recv: next, c, variant: "old_owner_signs_for_receiver" },
+                3 => Op::Accept { signer: u, acct: owner, recv: next, c, variant: "arbitrary_signer_receiver_is_proposed" },
+                4 => Op::Accept { signer: next, acct: any_user(rng), recv: next, c, variant: "arbitrary_owner_account" },
+                5 => Op::Accept { signer: next, acct: owner, recv: any_user(rng), c, variant: "proposed_owner_signs_arbitrary_receiver_account" },
+                _ => Op::Accept { signer: next, acct: owner, recv: next, c, variant: "well_formed" },
+            }
+        }
+    }
+}
+
+fn run_case(m: &mut Monitor, rng: &mut Rng, base: &World, users: &[Pubkey], shard: u64, case: u64, steps: u64) {
+    let mut w = base.clone();
+    let mut rel = Rel::default();
+    let mut hist: VecDeque<String> = VecDeque::new();
+    // Most users start prepared.
+    for (i, u) in users.iter().enumerate() {
+        if rng.chance(5, 6) {
+            if w.user_prepare(*u).is_ok() {
+                rel.prepared.insert(i);
+            } else {
+                m.inconclusive("prepare_user failed during case setup");
+                return;
+            }
+        }
+    }
+    for step in 0..steps {
+        let op = gen_op(rng, &rel);
+        let exp = rel.expect(&op);
+        let (ix, signer) = build(&w, users, &op);
+        let res = w.send(&[ix], &[signer]);
+        let ok = res.is_ok();
+        let code = match &res {
+            Ok(_) => "ok".to_string(),
+            Err((e, _)) => err_code(e),
+        };
+        m.eval();
+        let name = op.name();
+        m.count(&format!("{name}_{}", if ok { "ok" } else { "err" }));
+        m.count(&format!("{name}[{}]_{}", op.variant(), if ok { "ok" } else { "err" }));
+        m.nontrivial(format!("{name}:{}:{exp:?}:{code}", op.variant()).as_bytes());
+        let desc = format!("{op:?} expect={exp:?} -> {code}");
+        if hist.len() >= 40 {
+            hist.pop_front();
+        }
+        hist.push_back(desc.clone());
+        let witness = |rel: &Rel, extra: vcommon::serde_json::Value| {
+            json!({"shard": shard, "case": case, "step": step, "op": desc, "detail": extra,
+                "reference_before": format!("{rel:?}"), "last_ops": hist.iter().cloned().collect::<Vec<_>>(),
+                "users": users.iter().map(|u| u.to_string()).collect::<Vec<_>>()})
+        };
+        match (exp, ok) {
+            (Exp::MustFail(why), false) => m.count(&format!("must_fail_rejected[{why}]")),
+            (Exp::ShouldFail(why), false) => m.count(&format!("malformed_rejected[{why}]")),
+            (Exp::Ok, true) => {}
+            (Exp::Ok, false) => {
+                m.count("well_formed_request_rejected");
+                if m.wants_sample() {
+                    m.sample(json!({"well_formed_request_rejected": desc}));
+                }
+            }
+            (Exp::MustFail(why), true) => {
+                m.violation(&format!("C33:{name}:accepted_although_property_requires_failure"), witness(&rel, json!({"why": why})));
+            }
+            (Exp::ShouldFail(why), true) => m.count(&format!("malformed_accepted[{why}](not a property matter)")),
+        }
+        if !ok {
+            continue; // atomic: nothing changed
+        }
+        // ---- post-state checks against the pre-state relation
+        let chain = read_chain(&w, users);
+        let post = match rel_of_chain(&chain, users, &w.store) {
+            Ok(p) => p,
+            Err(e) => {
+                m.violation(&format!("C33:{name}:state_outside_universe"), witness(&rel, json!({"problem": e})));
+                continue;
+            }
+        };
+        m.count("post_state_checks");
+        // (1) referrer: write-once, never self, never mutual.
+        for (u, r) in &post.referrer {
+            if let Some(old) = rel.referrer.get(u) {
+                if old != r {
+                    m.violation(&format!("C33:{name}:referrer_overwritten"), witness(&rel, json!({"user": u, "old": old, "new": r})));
+                }
+            } else {
+                let legit = matches!(op, Op::SetReferrer { u: ou, .. } if ou == *u);
+                if !legit {
+                    m.violation(&format!("C33:{name}:referrer_set_by_other_instruction"), witness(&rel, json!({"user": u, "new": r})));
+                }
+            }
+            if r == u {
+                m.violation(&format!("C33:{name}:self_referral"), witness(&rel, json!({"user": u})));
+            }
+            if post.referrer.get(r) == Some(u) {
+                m.violation(&format!("C33:{name}:mutual_referral"), witness(&rel, json!({"user": u, "referrer": r})));
+            }
+        }
+        for u in rel.referrer.keys() {
+            if !post.referrer.contains_key(u) {
+                m.violation(&format!("C33:{name}:referrer_cleared"), witness(&rel, json!({"user": u})));
+            }
+        }
+        // (2) every code belongs to exactly one user.
+        for (c, owner) in &post.code_owner {
+            let holders: Vec<usize> = post.user_code.iter().filter(|(_, cc)| *cc == c).map(|(u, _)| *u).collect();
+            if holders != vec![*owner] {
+                m.violation(
+                    &format!("C33:{name}:code_not_owned_by_exactly_one_user"),
+                    witness(&rel, json!({"code": c, "code_account_owner": owner, "users_pointing_to_code": holders})),
+                );
+            }
+        }
+        for (u, c) in &post.user_code {
+            if !post.code_owner.contains_key(c) {
+                m.violation(&format!("C33:{name}:user_points_to_missing_code"), witness(&rel, json!({"user": u, "code": c})));
+            }
+        }
+        // (3) ownership changes only on acceptance by the proposed owner.
+        for (c, new_owner) in &post.code_owner {
+            if let Some(old) = rel.code_owner.get(c) {
+                if old != new_owner {
+                    let proposed = rel.code_next.get(c).copied();
+                    let legit = matches!(op, Op::Accept { signer, c: oc, .. } if oc == *c && Some(signer) == proposed && signer == *new_owner && proposed != Some(*old));
+                    if legit {
+                        m.count("ownership_changed_by_acceptance");
+                    } else {
+                        m.violation(
+                            &format!("C33:{name}:ownership_changed_without_acceptance_by_proposed_owner"),
+                            witness(&rel, json!({"code": c, "old_owner": old, "new_owner": new_owner, "proposed_owner_before": proposed})),
+                        );
+                    }
+                }
+            }
+        }
+        for c in rel.code_owner.keys() {
+            if !post.code_owner.contains_key(c) {
+                m.violation(&format!("C33:{name}:code_disappeared"), witness(&rel, json!({"code": c})));
+            }
+        }
+        // (4) the reference relation after its own transition.
+        let mut want = rel.clone();
+        match exp {
+            Exp::Ok => want.apply(&op),
+            _ => {
+                // Unexpected success: adopt the chain's relation (already checked above).
+                want = post.clone();
+            }
+        }
+        if want != post {
+            m.violation(
+                &format!("C33:{name}:state_differs_from_reference"),
+                witness(&rel, json!({"reference_after": format!("{want:?}"), "chain_after": format!("{post:?}")})),
+            );
+        }
+        rel = post;
+        if let Op::SetReferrer { .. } = op {
+            m.count("referrers_set");
+        }
+    }
+    m.max("max_referrers_in_a_case", rel.referrer.len() as u64);
+    m.max("max_codes_in_a_case", rel.code_owner.len() as u64);
+    if m.wants_sample() {
+        m.sample(json!({"steps": steps, "final_relation": format!("{rel:?}"), "last_ops": hist.iter().rev().take(4).cloned().collect::<Vec<_>>()}));
+    }
+}
+
+pub fn run(args: &Args) -> Option<i32> {
+    let mut mon = Monitor::new(
+        args,
+        "cases: random histories (60..240 instructions) of prepare_user / initialize_referral_code / set_referrer / \
+         transfer / cancel / accept over 6 users and 7 codes through the real instructions, well-formed and hostile \
+         variants; after every successful instruction all user and referral-code accounts are read back and compared \
+         with a reference relation; non-trivial: every instruction sent; distinct = distinct (instruction, variant, \
+         model expectation, result code)",
+    );
+    mon.assume("failed instructions change nothing (transaction atomicity of the runtime), so accounts are re-read only after successes");
+    mon.assume("requests the property does not forbid but the instruction docs reject (malformed accounts, receiver already has a code, …) are counted, not judged");
+    let quiet = hostsvm::QuietStdout::new();
+    let shards = args.scale(128, 512);
+    let cases = args.scale(12, 40);
+    let seed = args.seed;
+    run_shards(&mut mon, args.threads, shards, |shard, m| {
+        let mut rng = Rng::derive(seed, shard, 33);
+        let base = vcommon::monitor::guard(|| {
+            let mut w = World::bootstrap_store();
+            let users: Vec<Pubkey> = (0..N_USERS).map(|i| w.add_user(&format!("c33-{i}"))).collect();
+            (w, users)
+        });
+        let (base, users) = match base {
+            Ok(x) => x,
+            Err(e) => {
+                m.inconclusive(&format!("bootstrap failed: {e}"));
+                return;
+            }
+        };
+        for case in 0..cases {
+            let steps = rng.range(60, 240);
+            run_case(m, &mut rng, &base, &users, shard, case, steps);
+        }
+    });
+    drop(quiet);
+    for c in [
+        "prepare_user_ok", "initialize_referral_code_ok", "set_referrer_ok", "transfer_referral_code_ok", "cancel_referral_code_transfer_ok",
+        "accept_referral_code_ok", "ownership_changed_by_acceptance", "post_state_checks",
+    ] {
+        mon.require(c, 100);
+    }
+    for c in [
+        "must_fail_rejected[referrer already set]", "must_fail_rejected[self referral]", "must_fail_rejected[mutual referral]",
+        "must_fail_rejected[the signer is not the proposed new owner]", "must_fail_rejected[the receiving account is not the proposed new owner's]",
+        "must_fail_rejected[the code already belongs to a user]",
+    ] {
+        mon.require(c, 20);
+    }
+    Some(mon.finish())
 }
